@@ -4,7 +4,7 @@ import ESRVerif.Props.C14c
 # C07 (row and call independence of the Fisher stage)
 
 `convert_params` snaps the parameter vector it is handed IN PLACE, and `main` hands it a view of the stage-1 table.  The alias table
-`ESR.Gen.Codelen.fisherWrites` is regenerated from the source on every run (one entry per array written in place, origin and call site).
+`ESR.Gen.FisherAlias.fisherWrites` is regenerated from the source on every run (one entry per array written in place, origin and call site).
 What is shared today, precisely: the snap of line 193 writes `params_proc[i,:nparam]`, the row's OWN stage-1 slot; no other row reads it
 (inside the loop `params_proc` occurs only as `params_proc[i, …]`), nothing reads it after the loop, and the ONLY later reader is the
 second attempt of the SAME row (`except NameError:` + `try_integration`), which is handed the same object (`retryReadsSlot`).
@@ -12,7 +12,7 @@ Hence the loop as written is a map over (function, stage-1 row) — with the ret
 and C14's tiling gives the permutation / removal / rank-count corollaries that the harness checks on the real `main`.
 -/
 namespace ESR.C07c
-open ESR.Stages ESR.Partition ESR.FisherLoop ESR.Gen.Codelen
+open ESR.Stages ESR.Partition ESR.FisherLoop ESR.Gen.FisherAlias
 
 /-- Every array written in place by the Fisher stage is new inside the call or the row's own stage-1 slot; the slot table is read
 inside the loop only as row `i` and not at all after the loop; and the snap is in the table (non-vacuity: an in-place write to
